@@ -105,3 +105,11 @@ def individual_hash(rng, tier):
     for n in (1, 2, 3):
         for a in itertools.product(vals, repeat=n):
             yield {"call": lambda self: self.__hash__(), "args": {"self": Individual(list(a))}, "label": "%r" % (a,)}
+            # the vector is routinely replaced after construction (generate(), sync(), from_dict()): the hash follows the
+            # CURRENT vector, so equal designs hash equally whatever their construction history
+            x = Individual([9.0] * n)
+            x.vector = list(a)
+            yield {"call": lambda self: self.__hash__(), "args": {"self": x}, "label": "reassigned %r" % (a,)}
+            y = Individual(list(a))
+            y.vector[0] = y.vector[0] + 1.0
+            yield {"call": lambda self: self.__hash__(), "args": {"self": y}, "label": "updated in place %r" % (a,)}
